@@ -111,15 +111,22 @@ def gen_new_exhaustive(thorough, rnd):
     for lv in itertools.product(L, repeat=2):
         for tm in T:
             for c in ALL_CURVES:
-                for rel in nodes(1):
-                    for loop in ([], [0]):
-                        out.append(new_case(list(lv), [tm], [c], rel, loop, scalar_cv=rnd.randrange(2),
-                                            scalar_tm=int(tm != Z and rnd.randrange(2))))
+                combos = [(rel, loop) for rel in nodes(1) for loop in ([], [0])]
+                if not thorough:        # quick: two of the four node combinations per envelope
+                    combos = rnd.sample(combos, 2)
+                for rel, loop in combos:
+                    out.append(new_case(list(lv), [tm], [c], rel, loop, scalar_cv=rnd.randrange(2),
+                                        scalar_tm=int(tm != Z and rnd.randrange(2))))
     # two segments: times and curves of length 1 (wrapping) and 2
     C = [cv('lin'), cv('hold'), cnum(-4)] + ([cv('step')] if thorough else [])
-    for lv in itertools.product(L, repeat=3):
+    triples = list(itertools.product(L, repeat=3))
+    k = 0
+    for lv in triples:
         for tm in seqs(T, 1, 2):
             for cs in seqs(C, 1, 2):
+                k += 1
+                if not thorough and (k + triples.index(lv)) % 3:
+                    continue        # quick: every (times, curves) pair with a third of the level triples, all triples used
                 if thorough:
                     for rel in nodes(2):
                         for loop in ([], [0]):
@@ -299,10 +306,10 @@ CTL = [ONE, ONE, Z, ONE, Z]
 IX = [1, 2]
 H_INIT = dict(lv=[Z, ONE, Z], tm=[ONE, ONE], cv=[LIN], rel=[], loop=[], off=Z)
 H_ALPHABET = [
-    dict(n='fmt'), dict(n='ifmt'), dict(n='at', t=32), dict(n='at', t=200),
+    dict(n='fmt'), dict(n='ifmt'), dict(n='at', t=32),
     dict(n='ugenE', ctl=CTL), dict(n='ugenI', ix=IX), dict(n='ugenEI', ctl=CTL, ix=IX), dict(n='ugenIE', ctl=CTL, ix=IX),
     dict(n='set_levels', lv=[ONE, [1, 2], [-1, 2]]), dict(n='set_times', tm=[[1, 2], ONE]),
-    dict(n='set_curves', cv=[cv('hold'), LIN]), dict(n='set_release_node', node=[1]), dict(n='set_loop_node', node=[0]),
+    dict(n='set_curves', cv=[cv('hold'), LIN]), dict(n='set_release_node', node=[1]),
     dict(n='set_offset', off=ONE)]
 
 
@@ -425,10 +432,10 @@ def histories(ctx, thorough, rnd):
                         for o2 in obs[:4]:
                             cases.append(dict(init=H_INIT, fl=0, ev=[dict(x) for x in (o0, s1, o1, s2, o2)]))
     n_ex = len(cases)
-    nr = 3000 if thorough else 200
+    nr = 3000 if thorough else 150
     cases += [random_history(rnd, rnd.randint(4, 12)) for _ in range(nr)]
     # S->C: histories simulated by TLC from the instance model, with the answers it prescribes
-    nsim = 400 if thorough else 25
+    nsim = 400 if thorough else 15
     behs, r = tlc.simulate_behaviours('EnvObj', 'EnvObj_sim.cfg', ctx.work, num=nsim, depth=8, seed=ctx.seed + 3,
                                       timeout=600)
     ctx.cov['transitions'] += r.generated
